@@ -154,6 +154,7 @@ def run(ctx, rep, tier):
         steplen.soc_scalar_cap(rep, F, tag, 'C07.R6')
         from . import c14
         c14.membership_guards(rep, F, tag, 'C07.R8')
+        steplen.margins_definitions(rep, F, E, tag, 'C07.R9')
     # a run limited to max_iter = k is a prefix of a longer run also on a re-used solver object: every solve starts from scratch
     from . import c05, c04
     for cfg in CONFIGS:
